@@ -411,6 +411,11 @@ struct SctpInner {
     // Cookie HMAC key
     cookie_hmac_key: [u8; 16],
 
+    // The INIT this endpoint has answered (RFC 4960 §5.2): retransmitted, duplicated or
+    // late copies of it are answered again with the same parameters and must not disturb
+    // the association.
+    answered_init: Mutex<Option<AnsweredInit>>,
+
     // Inbound stream state for ordered delivery
     inbound_streams: Mutex<HashMap<u16, InboundStream>>,
 
@@ -442,6 +447,17 @@ struct SctpInner {
 
 struct SctpCleanupGuard<'a> {
     inner: &'a SctpInner,
+}
+
+/// Parameters of the peer INIT that was answered and of the INIT-ACK sent for it.
+#[derive(Debug, Clone, Copy)]
+struct AnsweredInit {
+    peer_tag: u32,
+    peer_initial_tsn: u32,
+    local_tag: u32,
+    local_initial_tsn: u32,
+    /// A COOKIE-ECHO for this INIT has been accepted (association established).
+    established: bool,
 }
 
 /// Build Gap Ack Blocks from buffered out-of-order packets so the peer knows
@@ -853,6 +869,7 @@ impl SctpTransport {
                 rand::rng().fill_bytes(&mut key);
                 key
             },
+            answered_init: Mutex::new(None),
             inbound_streams: Mutex::new(HashMap::new()),
             advanced_peer_ack_tsn: AtomicU32::new(0),
             forward_tsn_pending: AtomicBool::new(false),
@@ -1699,17 +1716,33 @@ impl SctpInner {
         let _inbound_streams = buf.get_u16();
         let initial_tsn = buf.get_u32();
 
-        self.peer_rwnd.store(a_rwnd, Ordering::SeqCst);
-        let init_ssthresh = (a_rwnd as usize).max(SSTHRESH_MIN);
-        self.ssthresh.store(init_ssthresh, Ordering::SeqCst);
-        self.remote_verification_tag
-            .store(initiate_tag, Ordering::SeqCst);
-        self.cumulative_tsn_ack
-            .store(initial_tsn.wrapping_sub(1), Ordering::SeqCst);
+        // RFC 4960 §5.2.2: a retransmitted, duplicated or late copy of the INIT that was
+        // already answered gets the same INIT-ACK again; the TCB (tags, TSNs, windows) of
+        // the association it belongs to is left untouched.
+        let duplicate_of = {
+            let answered = self.answered_init.lock();
+            answered.filter(|a| a.peer_tag == initiate_tag && a.peer_initial_tsn == initial_tsn)
+        };
+
+        if duplicate_of.is_none() {
+            self.peer_rwnd.store(a_rwnd, Ordering::SeqCst);
+            let init_ssthresh = (a_rwnd as usize).max(SSTHRESH_MIN);
+            self.ssthresh.store(init_ssthresh, Ordering::SeqCst);
+            self.remote_verification_tag
+                .store(initiate_tag, Ordering::SeqCst);
+            self.cumulative_tsn_ack
+                .store(initial_tsn.wrapping_sub(1), Ordering::SeqCst);
+        }
 
         // Generate local tag
-        let local_tag = random_u32();
-        self.verification_tag.store(local_tag, Ordering::SeqCst);
+        let local_tag = match duplicate_of {
+            Some(a) => a.local_tag,
+            None => random_u32(),
+        };
+        if duplicate_of.is_none() {
+            self.verification_tag.store(local_tag, Ordering::SeqCst);
+        }
+        let peer_initial_tsn = initial_tsn;
 
         // Generate HMAC-protected state cookie
         let cookie = self.generate_cookie();
@@ -1729,7 +1762,20 @@ impl SctpInner {
         let initial_tsn = crate::verif::get_override("sctp_initial_tsn_server")
             .map(|v| v as u32)
             .unwrap_or(initial_tsn);
-        self.next_tsn.store(initial_tsn, Ordering::SeqCst);
+        let initial_tsn = match duplicate_of {
+            Some(a) => a.local_initial_tsn,
+            None => {
+                self.next_tsn.store(initial_tsn, Ordering::SeqCst);
+                *self.answered_init.lock() = Some(AnsweredInit {
+                    peer_tag: initiate_tag,
+                    peer_initial_tsn,
+                    local_tag,
+                    local_initial_tsn: initial_tsn,
+                    established: false,
+                });
+                initial_tsn
+            }
+        };
         init_ack_params.put_u32(initial_tsn);
 
         // Forward TSN (Type 0xC000)
@@ -1759,6 +1805,13 @@ impl SctpInner {
     }
 
     async fn handle_init_ack(&self, chunk: Bytes) -> Result<()> {
+        // RFC 4960 §5.2.3: an INIT-ACK received in any state other than COOKIE-WAIT
+        // (an INIT is outstanding) is discarded.
+        let in_cookie_wait = matches!(&*self.t1_chunk.lock(), Some((CT_INIT, _, _)));
+        if !in_cookie_wait {
+            debug!("SCTP: INIT-ACK outside COOKIE-WAIT, discarding");
+            return Ok(());
+        }
         self.t1_cancel();
 
         let mut buf = chunk;
@@ -1812,6 +1865,13 @@ impl SctpInner {
     }
 
     async fn handle_cookie_ack(&self, _chunk: Bytes) -> Result<()> {
+        // RFC 4960 §5.2.5: a COOKIE-ACK received in any state other than COOKIE-ECHOED
+        // (a COOKIE-ECHO is outstanding) is silently discarded.
+        let in_cookie_echoed = matches!(&*self.t1_chunk.lock(), Some((CT_COOKIE_ECHO, _, _)));
+        if !in_cookie_echoed {
+            debug!("SCTP: COOKIE-ACK outside COOKIE-ECHOED, discarding");
+            return Ok(());
+        }
         self.t1_cancel();
         *self.state.lock() = SctpState::Connected;
         self.advanced_peer_ack_tsn.store(
@@ -2227,6 +2287,18 @@ impl SctpInner {
         let tag = self.remote_verification_tag.load(Ordering::SeqCst);
         self.send_chunk(CT_COOKIE_ACK, 0, Bytes::new(), tag).await?;
 
+        // RFC 4960 §5.2.4 (case D): a COOKIE-ECHO for the association that is already
+        // established is only acknowledged again; channels are not opened a second time.
+        {
+            let mut answered = self.answered_init.lock();
+            if let Some(a) = answered.as_mut() {
+                if a.established && *self.state.lock() == SctpState::Connected {
+                    return Ok(());
+                }
+                a.established = true;
+            }
+        }
+
         *self.state.lock() = SctpState::Connected;
         self.advanced_peer_ack_tsn.store(
             self.next_tsn.load(Ordering::SeqCst).wrapping_sub(1),
@@ -2637,6 +2709,16 @@ impl SctpInner {
             return Ok(());
         }
         let tsn = buf.get_u32();
+
+        // A channel's Open must precede its first message. If our COOKIE-ECHO is still
+        // outstanding, DATA from the peer proves that it was accepted (the peer only sends
+        // DATA on an established association): the COOKIE-ACK was lost or is late, so
+        // complete the set-up before the payload is delivered.
+        let cookie_echoed = matches!(&*self.t1_chunk.lock(), Some((CT_COOKIE_ECHO, _, _)));
+        if cookie_echoed && *self.state.lock() != SctpState::Connected {
+            debug!("SCTP: DATA while COOKIE-ECHO is outstanding, treating it as COOKIE-ACK");
+            self.handle_cookie_ack(Bytes::new()).await?;
+        }
 
         // Deduplication and Ordering Check
         let cumulative_ack = self.cumulative_tsn_ack.load(Ordering::Relaxed);
